@@ -258,8 +258,13 @@ impl CanonicalRequest {
                         pq.push_str(&qs);
                     }
 
-                    parts.uri =
-                        Uri::builder().path_and_query(pq).build().expect("failed to rebuild URI with new query string");
+                    // The http crate refuses URIs longer than 64 KiB; a form body can be larger than that.
+                    parts.uri = Uri::builder().path_and_query(pq).build().map_err(|e| {
+                        SignatureError::MalformedQueryString(format!(
+                            "Unable to convert application/x-www-form-urlencoded body to a query string: {}",
+                            e
+                        ))
+                    })?;
                     body = Bytes::from("");
                 }
             }
